@@ -125,6 +125,14 @@ theorem C14_binarySearch (set : SortedSet) (h : set.WF) (start : Nat) (e : Bytes
   rw [findIdx_eq_findPos]
   exact Ix.findPos_sorted Bytes.lt e _ Bytes.lt_irrefl hs
 
+
+/-- **C14 (Check as the code runs it).** `Ix.checkBS` is `headers.Check` with every index and slice expression checked
+(`cutAtComma`, `TrimOWS`, `set.elems[start:]`) *and* every `slices.BinarySearch` run as the library's halving loop.  For every
+well-formed set of allowed names and every sequence of field lines — any bytes — it returns `.ok` of the list-level model's
+verdict, which `C14` identifies with the documented approval condition. -/
+theorem C14_check_binarySearch (set : SortedSet) (h : set.WF) (acrhs : List Bytes) :
+    Ix.checkBS set acrhs = .ok (Headers.check set acrhs) := Ix.checkBS_refines set h acrhs
+
 #print axioms C14
 #print axioms C14_sound
 #print axioms C14_browser
@@ -132,5 +140,6 @@ theorem C14_binarySearch (set : SortedSet) (h : set.WF) (start : Nat) (e : Bytes
 #print axioms C14_wf
 
 #print axioms C14_binarySearch
+#print axioms C14_check_binarySearch
 
 end Cors
